@@ -119,6 +119,9 @@ impl SyntaxPattern {
                                     for (var, multi_match) in multi_matches_substitutions {
                                         substitutions.get_mut(&var).unwrap().1.push(multi_match.0);
                                     }
+                                } else {
+                                    // every item of the run has to match the sub-pattern
+                                    return Ok(false);
                                 }
                                 if Self::match_datum_stream(
                                     pattern_index,
